@@ -22,6 +22,9 @@ def MAX : Nat := 2^64 - 1
 @[inline] def wrappingMul (a b : Nat) : Nat := (a * b) % 2^64
 @[inline] def wrappingAdd (a b : Nat) : Nat := (a + b) % 2^64
 @[inline] def wrappingSub (a b : Nat) : Nat := (a + 2^64 - b) % 2^64
+/-- `a.wrapping_shl(s)`: the shift amount is taken modulo 64 -/
+@[inline] def wrappingShl (a s : Nat) : Nat := (a <<< (s % 64)) % 2^64
+@[inline] def wrappingShr (a s : Nat) : Nat := a >>> (s % 64)
 @[inline] def saturatingAdd (a b : Nat) : Nat := if a + b < 2^64 then a + b else 2^64 - 1
 @[inline] def saturatingSub (a b : Nat) : Nat := a - b
 /-- `a << k` for a literal `k < 64` (cannot panic) -/
